@@ -129,3 +129,15 @@ let () =
         Stdlib.String.concat "," (Stdlib.List.map (fun a -> string_of_n (Discriminator.disc_of_avg (n_of_string a)))
           (Stdlib.String.split_on_char ',' avgs))
     | _ -> "ERR args")
+
+(* c02.flags <digest is SHA512/256: 0|1> <feature flags of the input's catar ENTRY header|->
+   -> "<flags IndexFromFile records> <IndexFromReader accepts under the same digest 0|1> <under the other digest 0|1>" *)
+let () =
+  Drv.register "c02.flags" (fun args -> match args with
+    | [d; t] ->
+        let d512 = (d = "1") in
+        let catar = if t = "-" then None else Some (n_of_string t) in
+        let f = IndexFlags.index_flags d512 catar in
+        let b x = if x then "1" else "0" in
+        string_of_n f ^ " " ^ b (IndexFlags.reader_accepts d512 f) ^ " " ^ b (IndexFlags.reader_accepts (not d512) f)
+    | _ -> "ERR args")
